@@ -1,9 +1,15 @@
 // C03 — String vs a byte-string model: (1) explicit-state BFS over in-place mutation histories (incl. self-aliasing
 // arguments), (2) complete enumeration of small-alphabet inputs for the pure functions, (3) integer round trips,
-// (4) printf-style constructors over every argument length.
+// (4) printf-style constructors over every argument length, (5) text of float/double/bool, the remaining text constructors,
+// template operator= / operator<<, fix(n), every operator+ form over boundary length pairs.
 #include <asl/String.h>
 #include <asl/Array.h>
+#include <asl/Map.h>
 #include <limits.h>
+#include <float.h>
+#include <math.h>
+#include <new>
+#include <map>
 #include "vf.h"
 #include "aslx.h"
 using namespace asl;
@@ -11,14 +17,20 @@ using vf::fmt;
 using vfx::S; using vfx::A;
 
 static int C_EVAL, C_DIST, W_INLINE2HEAP, W_HEAP_DOUBLE, W_REALLOC, W_SELF_APPEND, W_SELF_ASSIGN, W_INLINE_RESULT, W_HEAP_RESULT, W_F_RETRY, W_CTOR_RETRY;
+static int W_CTORBLK_GROW, W_CTORBLK_FULL_APPCHAR, W_CTORBLK_SELFAPP, W_SELFAPP_GROW, W_SELFAPP_NOGROW, W_SELFAPP_REALLOC_MOVED;
+static int W_DOUBLE_HEAP, W_DOUBLE_INLINE, W_FLOAT, W_BOOL, W_HIGHBYTE_TRIMCASES, W_HIGHBYTE_EDGE, W_SPLIT_REUSED_NONEMPTY, W_DIC_PAIRS, W_DIC_SKIPPED, W_DIC_OVERWRITE,
+	W_SUBSTR_START_BEYOND, W_SUBSTR_NEG_START, W_SUBSTR_COUNT_CLAMPED, W_CHAR_OVERLOADS, W_EMPTY_HEAP_SEARCH, W_SIGNED_ORDER, W_CONCAT, W_CONCAT_HEAP_RHS, W_CONCAT_AT_BOUNDARY,
+	W_TEXT_CTORS, W_REPEAT_NEG, W_TMPL_ASSIGN, W_SHL_FORMS, W_FIX_N;
 
 // ================================================================ (1) mutation histories
 struct StrSys {
-	enum Kind { ASSIGN_LIT, ASSIGN_STR, APP_CHAR, APP_LIT, APP_SELF, APP_SELF_SUB, SELF_ASSIGN, ASSIGN_TAIL, APPEND_PTR, RESIZE, TRIM, REPLACEME, CLEAR, FIX_SHORT, APP_1000, APP_AUX, AUX_FROM_S, SHL_INT, PAD_SPACES };
+	enum Kind { ASSIGN_LIT, ASSIGN_STR, APP_CHAR, APP_LIT, APP_SELF, APP_SELF_SUB, SELF_ASSIGN, ASSIGN_TAIL, APPEND_PTR, RESIZE, TRIM, REPLACEME, CLEAR, FIX_SHORT, APP_1000, APP_AUX, AUX_FROM_S, SHL_INT, PAD_SPACES, NEW_CTOR };
 	struct O { Kind k; int a, b; };
 	std::vector<O> ops;
 	String* s; String* t; std::string ms, mt;
-	StrSys() : s(0), t(0) {
+	bool ctorLive; // s still lives in the block its constructor (alloc(): max(n+1, 20) bytes) made
+	int first;     // >= 0: every history starts with this op (applied by reset()); used to split the depth-6 search into one search per first step
+	StrSys() : s(0), t(0), ctorLive(false), first(-1) {
 		int lens[] = { 0, 1, 7, 15, 16, 19, 20, 23, 24, 47 };
 		for (int i = 0; i < 10; i++) { add(ASSIGN_LIT, lens[i]); }
 		add(ASSIGN_STR, 15); add(ASSIGN_STR, 16); add(ASSIGN_STR, 30);
@@ -27,10 +39,12 @@ struct StrSys {
 		add(SELF_ASSIGN); add(ASSIGN_TAIL, 1); add(ASSIGN_TAIL, 2); add(APPEND_PTR, 1);
 		add(RESIZE, 0); add(RESIZE, 1); add(RESIZE, 2); add(RESIZE, 3);
 		add(TRIM); add(REPLACEME); add(CLEAR); add(FIX_SHORT); add(APP_1000); add(APP_AUX); add(AUX_FROM_S); add(SHL_INT); add(PAD_SPACES);
+		// appended last so that op numbers in old case strings keep their meaning
+		add(NEW_CTOR, 16); add(NEW_CTOR, 19); add(NEW_CTOR, 20); add(NEW_CTOR, 33);
 	}
 	void add(Kind k, int a = 0, int b = 0) { O o = { k, a, b }; ops.push_back(o); }
 	int nops() { return (int)ops.size(); }
-	void reset() { delete s; delete t; s = new String(); t = new String("aux-string-that-lives-on-the-heap"); ms = ""; std::string("aux-string-that-lives-on-the-heap").swap(mt); std::string().swap(ms); }
+	void reset() { ctorLive = false; delete s; delete t; s = new String(); t = new String("aux-string-that-lives-on-the-heap"); ms = ""; std::string("aux-string-that-lives-on-the-heap").swap(mt); std::string().swap(ms); if (first >= 0) { std::string e; apply(first, e); } }
 	static std::string lit(int n) { std::string r; for (int i = 0; i < n; i++) r += char('a' + i % 26); return r; }
 	bool enabled(int op) {
 		const O& o = ops[op];
@@ -57,6 +71,7 @@ struct StrSys {
 		case RESIZE: return o.a == 0 ? "s.resize(n-1)" : o.a == 1 ? "s.resize(n+1); fill" : o.a == 2 ? "s.resize(cap); fill" : "s.resize(2n+3); fill";
 		case TRIM: return "s.trim()"; case REPLACEME: return "s.replaceme('a','A')"; case CLEAR: return "s.clear()"; case FIX_SHORT: return "s[n/2] = 0; s.fix()";
 		case APP_1000: return "s += <1000 chars>"; case APP_AUX: return "s += aux"; case AUX_FROM_S: return "aux = s"; case SHL_INT: return "s << 12345"; case PAD_SPACES: return "s = \" \" + s + \"\\t \"";
+		case NEW_CTOR: return fmt("s = new String(<%d chars>, %d)", o.a, o.a);
 		}
 		return "?";
 	}
@@ -64,7 +79,10 @@ struct StrSys {
 		const O& o = ops[op];
 		int n = (int)ms.size();
 		int size0 = s->_size;
+		const char* p0 = size0 ? s->_str : 0;
+		bool onCtor = ctorLive;
 		switch (o.k) {
+		case NEW_CTOR: { std::string l = lit(o.a); delete s; s = 0; s = new String(l.data(), (int)l.size()); ms = l; ctorLive = s->_size != 0; return observe(err); }
 		case ASSIGN_LIT: { std::string l = lit(o.a); *s = l.c_str(); ms = l; break; }
 		case ASSIGN_STR: { std::string l = lit(o.a); String x = A(l); *s = x; ms = l; break; }
 		case APP_CHAR: *s += 'x'; ms += 'x'; break;
@@ -87,6 +105,16 @@ struct StrSys {
 		}
 		if (size0 == 0 && s->_size != 0) vf::add(W_INLINE2HEAP);
 		else if (size0 != 0 && s->_size > size0) { if (size0 < 1024) vf::add(W_HEAP_DOUBLE); else vf::add(W_REALLOC); }
+		bool alias = o.k == APP_SELF || o.k == APPEND_PTR; // the argument really points into s's own buffer
+		if (alias) {
+			if (s->_size != size0) vf::add(W_SELFAPP_GROW); else vf::add(W_SELFAPP_NOGROW);
+			if (size0 >= 1024 && s->_size != size0) { if (s->_str != p0) vf::add(W_SELFAPP_REALLOC_MOVED); } // (under ASan realloc always moves the block)
+		}
+		if (onCtor) {
+			if (s->_size != size0) { vf::add(W_CTORBLK_GROW); ctorLive = false; }
+			if (o.k == APP_CHAR && n == size0 - 1) vf::add(W_CTORBLK_FULL_APPCHAR);
+			if (alias) vf::add(W_CTORBLK_SELFAPP);
+		}
 		return observe(err);
 	}
 	bool one(const String& x, const std::string& m, const char* nm, std::string& err) {
@@ -143,16 +171,36 @@ static void pure_substring(int len, int pad) {
 		if (j == L) { String t = s.substring(i), u = s.substr(i); if (S(t) != m.substr(i) || S(u) != m.substr(i)) bad("substring", fmt("substring(%d) / substr(%d)", i, i), k); }
 		asanChk("substring/substr", k);
 	}
-	// substr with negative start (counts from the end) and over-long count (clamped), as documented in the code
+	// substr(i, n) over every start in [-L, L+2] (negative counts from the end, a start beyond the end is clamped to it) and every count in [0, L+2] (clamped)
+	for (int i = -L; i <= L + 2; i++) {
+		std::string k = fmt("substring:%d:%d:substr:%d", len, pad, i);
+		vf::cur(k);
+		int ii = i < 0 ? i + L : i; if (ii > L) ii = L;
+		for (int n = 0; n <= L + 2; n++) {
+			vf::add(C_EVAL);
+			int jj = std::min(ii + n, L);
+			String q = s.substr(i, n);
+			if (i > L) vf::add(W_SUBSTR_START_BEYOND); else if (i < 0) vf::add(W_SUBSTR_NEG_START);
+			if (ii + n > L) vf::add(W_SUBSTR_COUNT_CLAMPED);
+			if (S(q) != m.substr(ii, jj - ii) || !sane(q)) bad("substr", fmt("substr(%d,%d) of a %d-char string = '%s', reference '%s'", i, n, L, *q, m.substr(ii, jj - ii).c_str()), k);
+		}
+		String u = s.substr(i);
+		if (S(u) != m.substr(ii) || !sane(u)) bad("substr", fmt("substr(%d) of a %d-char string = '%s'", i, L, *u), k);
+		asanChk("substr", k);
+	}
 	for (int i = 1; i <= L; i++) { String r = s.substr(-i, L + 5); if (S(r) != m.substr(L - i)) bad("substr", fmt("substr(-%d, n+5)", i), fmt("substring:%d:%d:%d:%d", len, pad, 0, 0)); }
 }
-static void pure_search(uint64_t sidx, int slen, int pad) {
-	static const char al[] = "ab";
-	std::string m = std::string(pad, 'b') + nth(al, 2, slen, sidx);
-	String s = A(m);
+static int sgn(int x) { return x < 0 ? -1 : x > 0 ? 1 : 0; }
+// alpha 0: {a, b}; alpha 1: {a, 0xE9} (a byte that is negative as a signed char: order and equality must be those of unsigned bytes).
+// pad > 0: that many 'b' in front (heap); pad 0: as is (inline); pad -1: as is, but living in a 25-byte heap block (the empty string too)
+static void pure_search(uint64_t sidx, int slen, int pad, int alpha = 0) {
+	const char* al = alpha ? "a\xE9" : "ab";
+	std::string m = std::string(pad > 0 ? pad : 0, 'b') + nth(al, 2, slen, sidx);
+	String s = A(pad < 0 ? std::string(24, 'b') : m);
+	if (pad < 0) { s = m.c_str(); if (s._size != 25) bad("harness", "heap-with-slack placement not obtained", "search"); if (m.empty()) vf::add(W_EMPTY_HEAP_SEARCH); }
 	for (int plen = 0; plen <= 3; plen++) for (uint64_t pi = 0; pi < ipow(2, plen); pi++) {
 		std::string p = nth(al, 2, plen, pi);
-		std::string k = fmt("search:%d:%llu:%d:%s", slen, (unsigned long long)sidx, pad, p.c_str());
+		std::string k = alpha ? fmt("searchE:%d:%llu:%d:%d.%llu", slen, (unsigned long long)sidx, pad, plen, (unsigned long long)pi) : fmt("search:%d:%llu:%d:%s", slen, (unsigned long long)sidx, pad, p.c_str());
 		vf::cur(k); vf::add(C_EVAL);
 		String P = A(p);
 		vfx::Flush f1(s), f2(P);
@@ -160,12 +208,25 @@ static void pure_search(uint64_t sidx, int slen, int pad) {
 		if (s.indexOf(P) != ei || s.indexOf(p.c_str()) != ei || s.contains(P) != (ei >= 0)) bad("indexOf", fmt("'%s'.indexOf('%s') = %d, reference %d", m.c_str(), p.c_str(), s.indexOf(P), ei), k);
 		for (int i0 = 0; i0 <= (int)m.size(); i0++) { size_t e2 = m.find(p, i0); int r = s.indexOf(P, i0); if (r != (e2 == std::string::npos ? -1 : (int)e2)) bad("indexOf", fmt("'%s'.indexOf('%s', %d) = %d", m.c_str(), p.c_str(), i0, r), k); }
 		if (plen) { size_t l = m.rfind(p); int li = l == std::string::npos ? -1 : (int)l; if (s.lastIndexOf(p.c_str()) != li) bad("lastIndexOf", fmt("'%s'.lastIndexOf('%s') = %d, reference %d", m.c_str(), p.c_str(), s.lastIndexOf(p.c_str()), li), k); }
-		if (plen == 1) { size_t l = m.rfind(p[0]); if (s.lastIndexOf(p[0]) != (l == std::string::npos ? -1 : (int)l) || s.indexOf(p[0]) != ei) bad("indexOf", "char overloads", k); }
+		if (plen == 1) {
+			char c = p[0];
+			size_t l = m.rfind(c); if (s.lastIndexOf(c) != (l == std::string::npos ? -1 : (int)l) || s.indexOf(c) != ei) bad("indexOf", "char overloads", k);
+			for (int i0 = 0; i0 <= (int)m.size(); i0++) { size_t e2 = m.find(c, i0); int r = s.indexOf(c, i0); if (r != (e2 == std::string::npos ? -1 : (int)e2)) bad("indexOf", fmt("%s.indexOf(char 0x%02x, %d) = %d", vf::hex(m).c_str(), (unsigned char)c, i0, r), k); }
+			bool sw1 = !m.empty() && m[0] == c, ew1 = !m.empty() && m[m.size() - 1] == c, eq1 = m.size() == 1 && m[0] == c;
+			if (s.contains(c) != (ei >= 0)) bad("contains", fmt("%s.contains(char 0x%02x)", vf::hex(m).c_str(), (unsigned char)c), k);
+			if (s.startsWith(c) != sw1) bad("startsWith", fmt("%s.startsWith(char 0x%02x)", vf::hex(m).c_str(), (unsigned char)c), k);
+			if (s.endsWith(c) != ew1) bad("endsWith", fmt("%s.endsWith(char 0x%02x)", vf::hex(m).c_str(), (unsigned char)c), k);
+			if ((s == c) != eq1 || (s != c) != !eq1) bad("compare", fmt("%s ==/!= char 0x%02x", vf::hex(m).c_str(), (unsigned char)c), k);
+			vf::add(W_CHAR_OVERLOADS);
+		}
+		if (s.contains(p.c_str()) != (ei >= 0)) bad("contains", fmt("%s.contains(const char* %s)", vf::hex(m).c_str(), vf::hex(p).c_str()), k);
 		bool sw = m.size() >= p.size() && m.compare(0, p.size(), p) == 0, ew = m.size() >= p.size() && m.compare(m.size() - p.size(), p.size(), p) == 0;
 		if (s.startsWith(P) != sw || s.startsWith(p.c_str()) != sw) bad("startsWith", fmt("'%s'.startsWith('%s')", m.c_str(), p.c_str()), k);
 		if (s.endsWith(P) != ew || s.endsWith(p.c_str()) != ew) bad("endsWith", fmt("'%s'.endsWith('%s')", m.c_str(), p.c_str()), k);
 		int c = m.compare(p); int ac = s.compare(P);
-		if ((c < 0) != (ac < 0) || (c > 0) != (ac > 0) || (s == P) != (c == 0) || (s != P) != (c != 0) || (s < P) != (c < 0) || (s == p.c_str()) != (c == 0)) bad("compare", fmt("compare('%s','%s')", m.c_str(), p.c_str()), k);
+		if ((c < 0) != (ac < 0) || (c > 0) != (ac > 0) || (s == P) != (c == 0) || (s != P) != (c != 0) || (s < P) != (c < 0) || (s == p.c_str()) != (c == 0)
+			|| (s != p.c_str()) != (c != 0) || sgn(s.compare(p.c_str())) != sgn(c) || (P < s) != (c > 0)) bad("compare", fmt("compare(%s, %s): model %d, compare() %d", vf::hex(m).c_str(), vf::hex(p).c_str(), sgn(c), sgn(ac)), k);
+		if (c != 0) { size_t d = 0; while (d < m.size() && d < p.size() && m[d] == p[d]) d++; if (d < m.size() && d < p.size() && ((signed char)m[d] < (signed char)p[d]) != ((unsigned char)m[d] < (unsigned char)p[d])) vf::add(W_SIGNED_ORDER); }
 		asanChk("search/compare", k);
 	}
 }
@@ -174,6 +235,7 @@ static void pure_split(uint64_t sidx, int slen, int pad) {
 	static const char* seps[] = { ",", "ab", ",,", "a" };
 	std::string m = std::string(pad, 'z') + nth(al, 3, slen, sidx);
 	String s = A(m);
+	Array<String> reused; // split(sep, out) into an array that still holds the previous result
 	for (int si = 0; si < 4; si++) {
 		std::string k = fmt("split:%d:%llu:%d:%d", slen, (unsigned long long)sidx, pad, si);
 		vf::cur(k); vf::add(C_EVAL);
@@ -184,7 +246,40 @@ static void pure_split(uint64_t sidx, int slen, int pad) {
 		if (!ok) bad("split", fmt("'%s'.split('%s') gives %d parts, reference %d", m.c_str(), seps[si], r.length(), (int)e.size()), k);
 		String j = r.join(seps[si]);
 		if (S(j) != m || !sane(j)) bad("split_join", fmt("'%s'.split('%s').join('%s') = '%s'", m.c_str(), seps[si], seps[si], *j), k);
+		if (reused.length() > 0) vf::add(W_SPLIT_REUSED_NONEMPTY);
+		s.split(String(seps[si]), reused);
+		ok = reused.length() == (int)e.size();
+		for (int i = 0; ok && i < reused.length(); i++) ok = S(reused[i]) == e[i] && sane(reused[i]);
+		if (!ok) bad("split_into", fmt("'%s'.split('%s', out) with a non-empty out gives %d parts, reference %d", m.c_str(), seps[si], reused.length(), (int)e.size()), k);
 		asanChk("split/join", k);
+	}
+}
+static void pure_split2(uint64_t sidx, int slen, int pad) {
+	static const char al[] = "ab,=";
+	static const char* s1[] = { ",", ",,", "ab" };
+	static const char* s2[] = { "=", "==", "=" };
+	std::string m = std::string(pad, 'z') + nth(al, 4, slen, sidx);
+	String s = A(m);
+	for (int si = 0; si < 3; si++) {
+		std::string k = fmt("split2:%d:%llu:%d:%d", slen, (unsigned long long)sidx, pad, si);
+		vf::cur(k); vf::add(C_EVAL);
+		// reference: pairs are the pieces between sep1; a pair contributes key -> value when sep2 occurs in it after a non-empty key; a later pair with the same key wins
+		std::map<std::string, std::string> ref;
+		std::vector<std::string> parts = refSplit(m, s1[si]);
+		for (size_t i = 0; i < parts.size(); i++) {
+			size_t j = parts[i].find(s2[si]);
+			if (j == std::string::npos || j == 0) { vf::add(W_DIC_SKIPPED); continue; }
+			std::string key = parts[i].substr(0, j);
+			if (ref.count(key)) vf::add(W_DIC_OVERWRITE);
+			ref[key] = parts[i].substr(j + strlen(s2[si])); vf::add(W_DIC_PAIRS);
+		}
+		Dic<String> d = s.split(s1[si], s2[si]);
+		bool ok = d.length() == (int)ref.size();
+		std::map<std::string, std::string>::iterator it = ref.begin();
+		for (int i = 0; ok && i < d.length(); i++, ++it) ok = S(d.a[i].key) == it->first && S(d.a[i].value) == it->second && sane(d.a[i].key) && sane(d.a[i].value); // both are ordered by unsigned bytes
+		for (it = ref.begin(); ok && it != ref.end(); ++it) ok = d.has(A(it->first)) && S(d[A(it->first)]) == it->second;
+		if (!ok) bad("split_dic", fmt("'%s'.split('%s','%s') has %d entries, reference %d (or a key/value differs)", m.c_str(), s1[si], s2[si], d.length(), (int)ref.size()), k);
+		asanChk("split(sep1, sep2)", k);
 	}
 }
 static void pure_replace(uint64_t sidx, int slen, int pad) {
@@ -202,11 +297,13 @@ static void pure_replace(uint64_t sidx, int slen, int pad) {
 		asanChk("replace", k);
 	}
 }
-static void pure_trim(uint64_t sidx, int slen, int pad) {
-	static const char al[] = " \t\na\r";
-	std::string m = nth(al, 5, slen, sidx);
+// na = 5: alphabet { ' ', \t, \n, 'a', \r } (old case strings "trim:"); na = 7: plus a control byte 0x01 and a byte >= 0x80 (0xC3), neither of which is whitespace
+static void pure_trim(uint64_t sidx, int slen, int pad, int na = 5) {
+	static const char al[] = " \t\na\r\x01\xC3";
+	std::string m = nth(al, na, slen, sidx);
 	if (pad) m = m + std::string(pad, 'q') + m;
-	std::string k = fmt("trim:%d:%llu:%d", slen, (unsigned long long)sidx, pad);
+	std::string k = fmt(na == 7 ? "trim7:%d:%llu:%d" : "trim:%d:%llu:%d", slen, (unsigned long long)sidx, pad);
+	if (m.find_first_of("\x01\xC3") != std::string::npos) { vf::add(W_HIGHBYTE_TRIMCASES); if (strchr("\x01\xC3", m[0]) || strchr("\x01\xC3", m[m.size() - 1])) vf::add(W_HIGHBYTE_EDGE); }
 	vf::cur(k); vf::add(C_EVAL);
 	size_t b = m.find_first_not_of(" \t\n\r"), e = m.find_last_not_of(" \t\n\r");
 	std::string exp = b == std::string::npos ? "" : m.substr(b, e - b + 1);
@@ -221,6 +318,15 @@ static void pure_trim(uint64_t sidx, int slen, int pad) {
 	bool ok = r.length() == (int)ws.size();
 	for (int i = 0; ok && i < r.length(); i++) ok = S(r[i]) == ws[i];
 	if (!ok) bad("split_ws", fmt("split() of %s gives %d words, reference %d", vf::hex(m).c_str(), r.length(), (int)ws.size()), k);
+	Array<String> out; out << String("left over") << String("from an earlier call, long enough for the heap");
+	s.split(out);
+	ok = out.length() == (int)ws.size();
+	for (int i = 0; ok && i < out.length(); i++) ok = S(out[i]) == ws[i] && sane(out[i]);
+	if (!ok) bad("split_ws_into", fmt("split(out) of %s with a non-empty out gives %d words, reference %d", vf::hex(m).c_str(), out.length(), (int)ws.size()), k);
+	Array<String> tw = s.split_<String>();
+	ok = tw.length() == (int)ws.size();
+	for (int i = 0; ok && i < tw.length(); i++) ok = S(tw[i]) == ws[i] && sane(tw[i]);
+	if (!ok) bad("split_ws_T", fmt("split_<String>() of %s gives %d words, reference %d", vf::hex(m).c_str(), tw.length(), (int)ws.size()), k);
 	asanChk("trim/split()", k);
 }
 
@@ -272,10 +378,164 @@ static void chk_printf(int la, int lb) {
 	asanChk("printf constructors", k);
 }
 
+// ================================================================ (5) numbers as text, remaining text constructors, operator forms
+// A String constructed in place over 0x55 bytes followed by a zero guard: a constructor that forgets the terminator gives strlen != length()
+// (inline: runs on into the 0x55 bytes up to the guard; heap: ASan's malloc fill, reported by ASan or as a length mismatch).
+struct Slot {
+	union { char b[sizeof(String)]; long long align_; };
+	char guard[16];
+	String* p;
+	Slot() : p(0) { memset(b, 0x55, sizeof b); memset(guard, 0, sizeof guard); }
+	~Slot() { if (p) p->~String(); }
+	template<class T1> String& make(const T1& a) { p = new (b) String(a); return *p; }
+	template<class T1, class T2> String& make(const T1& a, const T2& c) { p = new (b) String(a, c); return *p; }
+};
+static bool is(const String& r, const std::string& e) { return r.length() == (int)e.size() && memcmp(*r, e.c_str(), e.size() + 1) == 0 && sane(r); }
+static std::string show(const String& r) { return fmt("'%.40s' (length %d, strlen %d, cap %d)", *r, r.length(), (int)strlen(*r), r.cap()); }
+
+template<class F> static void number_forms(F x, const std::string& e, const char* sig, const char* what, const std::string& k) {
+	{ Slot sl; String& r = sl.make(x); if (!is(r, e)) bad(sig, fmt("String(%s) = %s, reference '%s'", what, show(r).c_str(), e.c_str()), k); if (r._size) vf::add(W_HEAP_RESULT); else vf::add(W_INLINE_RESULT); }
+	int pre[] = { 0, 13, 15, 20 };
+	for (int i = 0; i < 4; i++) {
+		std::string l = StrSys::lit(pre[i]);
+		String a = A(l); a << x; vf::add(W_SHL_FORMS);
+		if (!is(a, l + e)) bad(sig, fmt("<%d chars> << %s = %s, reference '%s'", pre[i], what, show(a).c_str(), (l + e).c_str()), k);
+		String b = A(l); b = x; vf::add(W_TMPL_ASSIGN);
+		if (!is(b, e)) bad(sig, fmt("(<%d chars>) = %s gives %s, reference '%s'", pre[i], what, show(b).c_str(), e.c_str()), k);
+	}
+	vf::add(C_EVAL, 9);
+}
+static void chk_double(double x) {
+	unsigned long long bits; memcpy(&bits, &x, 8);
+	std::string k = fmt("double:%016llx", bits); vf::cur(k); vf::add(C_DIST);
+	char e[64]; int n = snprintf(e, sizeof e, "%.15g", x);
+	if (n >= ASL_STR_SPACE) vf::add(W_DOUBLE_HEAP); else vf::add(W_DOUBLE_INLINE);
+	number_forms(x, e, "double_text", fmt("(double)%.17g", x).c_str(), k);
+	asanChk("String(double)", k);
+}
+static void chk_float(float x) {
+	unsigned bits; memcpy(&bits, &x, 4);
+	std::string k = fmt("float:%08x", bits); vf::cur(k); vf::add(C_DIST); vf::add(W_FLOAT);
+	char e[64]; snprintf(e, sizeof e, "%.7g", x);
+	number_forms(x, e, "float_text", fmt("(float)%.9g", x).c_str(), k);
+	asanChk("String(float)", k);
+}
+static void chk_misc() {
+	std::string k = "misc:0"; vf::cur(k); vf::add(C_DIST);
+	number_forms(true, "true", "bool_text", "true", k); number_forms(false, "false", "bool_text", "false", k); vf::add(W_BOOL, 2);
+	Array<String> none; String j = none.join(","); vf::add(C_EVAL);
+	if (!is(j, "")) bad("join", "Array<String>().join(\",\") = " + show(j), k);
+	Array<String> one; one << String("only"); j = one.join(", a separator longer than the inline space"); vf::add(C_EVAL);
+	if (!is(j, "only")) bad("join", "['only'].join(sep) = " + show(j), k);
+	asanChk("bool / join on an empty array", k);
+}
+static void gen_doubles(std::vector<double>& out, bool all) {
+	static const int ex10[] = { -300, -100, -5, -4, 0, 14, 15, 16, 100, 300 };
+	std::vector<int> ex(ex10, ex10 + 10);
+	if (all) { ex.clear(); for (int e = -324; e <= 308; e++) ex.push_back(e); } // every decimal exponent a double can have (subnormals included; e-324 rounds to 0 or the smallest subnormal)
+	static const char dig[] = "12345678901234567";
+	for (int sg = 0; sg < 2; sg++) for (int nd = 1; nd <= 17; nd++) for (size_t ei = 0; ei < ex.size(); ei++) {
+		std::string t = sg ? "-" : ""; t += dig[0]; if (nd > 1) { t += '.'; t.append(dig + 1, nd - 1); } t += fmt("e%d", ex[ei]);
+		out.push_back(strtod(t.c_str(), 0));
+	}
+	double sp[] = { 0.0, -0.0, HUGE_VAL, -HUGE_VAL, NAN, -NAN, DBL_MAX, -DBL_MAX, DBL_MIN, -DBL_MIN, 4.9406564584124654e-324, -4.9406564584124654e-324, DBL_EPSILON, 0.1, -0.1, 0.5, 1.5, 3.5,
+		999999999999999.0, 9999999999999995.0, 99999999999999.95, -999999999999999.4, 0.0001, 0.00009999999999999995, -0.000123456789012345, -1.23456789012345e-5, 123456789012345.0, -123456789012345.0, 1234567890123456.0, 1e15, 1e16, -1e15, 4294967296.0, 9007199254740993.0, 9223372036854775808.0, -9223372036854775808.0 };
+	for (size_t i = 0; i < sizeof sp / sizeof *sp; i++) out.push_back(sp[i]);
+}
+static void gen_floats(std::vector<float>& out, bool all) {
+	static const int ex8[] = { -38, -5, -4, 0, 6, 7, 8, 38 };
+	std::vector<int> ex(ex8, ex8 + 8);
+	if (all) { ex.clear(); for (int e = -46; e <= 38; e++) ex.push_back(e); }
+	static const char dig[] = "123456789";
+	for (int sg = 0; sg < 2; sg++) for (int nd = 1; nd <= 9; nd++) for (size_t ei = 0; ei < ex.size(); ei++) {
+		std::string t = sg ? "-" : ""; t += dig[0]; if (nd > 1) { t += '.'; t.append(dig + 1, nd - 1); } t += fmt("e%d", ex[ei]);
+		out.push_back(strtof(t.c_str(), 0));
+	}
+	float sp[] = { 0.0f, -0.0f, HUGE_VALF, -HUGE_VALF, NAN, FLT_MAX, -FLT_MAX, FLT_MIN, -FLT_MIN, 1.4e-45f, -1.4e-45f, FLT_EPSILON, 0.1f, 0.5f, 1.5f, 3.5f, 9999999.5f, 16777216.0f, -0.0001234567f, -1.234567e-5f };
+	for (size_t i = 0; i < sizeof sp / sizeof *sp; i++) out.push_back(sp[i]);
+}
+
+// every remaining way to make a String from text, at length n (n < 0: only the forms that clamp a negative count)
+static void chk_text(int n) {
+	std::string k = fmt("text:%d", n); vf::cur(k); vf::add(C_DIST);
+	static const char cs[] = { 'x', '\x01', '\xC3' };
+	int nn = n < 0 ? 0 : n;
+	for (int ci = 0; ci < 3; ci++) {
+		char c = cs[ci]; std::string e(nn, c);
+		{ Slot sl; String& r = sl.make(c, n); if (!is(r, e)) bad("text_ctor", fmt("String(char 0x%02x, %d) = %s", (unsigned char)c, n, show(r).c_str()), k); }
+		{ String r = String::repeat(c, n); if (!is(r, e)) bad("text_ctor", fmt("String::repeat(char 0x%02x, %d) = %s", (unsigned char)c, n, show(r).c_str()), k); }
+		vf::add(C_EVAL, 2); vf::add(W_TEXT_CTORS, 2); if (n < 0) vf::add(W_REPEAT_NEG, 2);
+		if (n < 0) continue;
+		{ Slot sl; String& r = sl.make(c); if (!is(r, std::string(1, c))) bad("text_ctor", fmt("String(char 0x%02x) = %s", (unsigned char)c, show(r).c_str()), k); }
+		std::string l = StrSys::lit(n);
+		{ String a = A(l); a = c; if (!is(a, std::string(1, c))) bad("assign_T", fmt("(<%d chars>) = char 0x%02x gives %s", n, (unsigned char)c, show(a).c_str()), k); vf::add(W_TMPL_ASSIGN); }
+		{ String a = A(l); a << c; if (!is(a, l + c)) bad("shl", fmt("<%d chars> << char 0x%02x = %s", n, (unsigned char)c, show(a).c_str()), k); vf::add(W_SHL_FORMS); }
+		{ String a = A(l); String r = a + c; if (!is(r, l + c) || !is(a, l)) bad("concat", fmt("<%d chars> + char 0x%02x = %s", n, (unsigned char)c, show(r).c_str()), k);
+		  String q = c + a; if (!is(q, c + l) || !is(a, l)) bad("concat", fmt("char 0x%02x + <%d chars> = %s", (unsigned char)c, n, show(q).c_str()), k); vf::add(W_CONCAT, 2); }
+		vf::add(C_EVAL, 5);
+	}
+	if (n < 0) { asanChk("text constructors (negative count)", k); return; }
+	std::string l = StrSys::lit(n);
+	{ Array<char> a(n); if (n) memcpy(a.data(), l.data(), n); Slot sl; String& r = sl.make(a); if (!is(r, l)) bad("text_ctor", fmt("String(Array<char> of %d) = %s", n, show(r).c_str()), k); }
+	{ ByteArray a(n); if (n) memcpy(a.data(), l.data(), n); Slot sl; String& r = sl.make(a); if (!is(r, l)) bad("text_ctor", fmt("String(ByteArray of %d) = %s", n, show(r).c_str()), k); }
+	{ Slot sl; String& r = sl.make(l.c_str()); if (!is(r, l)) bad("text_ctor", fmt("String(const char* of %d) = %s", n, show(r).c_str()), k); }
+	{ std::string l2 = l + "tail-not-to-be-copied"; Slot sl; String& r = sl.make(l2.c_str(), n); if (!is(r, l)) bad("text_ctor", fmt("String(const char*, %d) = %s", n, show(r).c_str()), k); }
+	{ String src = A(l); Slot sl; String& r = sl.make(src); if (!is(r, l)) bad("text_ctor", fmt("String(const String& of %d) = %s", n, show(r).c_str()), k); }
+	vf::add(C_EVAL, 5); vf::add(W_TEXT_CTORS, 5);
+	// operator<< with text and integer arguments, template operator= with integers
+	{ String a = A(l); a << "lit"; if (!is(a, l + "lit")) bad("shl", fmt("<%d chars> << \"lit\" = %s", n, show(a).c_str()), k); }
+	{ String a = A(l), b2 = A(l); a << b2; if (!is(a, l + l)) bad("shl", fmt("<%d chars> << String(<%d chars>) = %s", n, n, show(a).c_str()), k); }
+	{ String a = A(l); a << a; if (!is(a, l + l)) bad("shl", fmt("s << s with %d chars = %s", n, show(a).c_str()), k); }
+	{ String a = A(l); a << 4000000000u; if (!is(a, l + "4000000000")) bad("shl", fmt("<%d chars> << 4000000000u = %s", n, show(a).c_str()), k); }
+	{ String a = A(l); a << (Long)-1234567890123456789LL; if (!is(a, l + "-1234567890123456789")) bad("shl", fmt("<%d chars> << (Long)-1234567890123456789 = %s", n, show(a).c_str()), k); }
+	{ String a = A(l); a << (ULong)18446744073709551615ULL; if (!is(a, l + "18446744073709551615")) bad("shl", fmt("<%d chars> << ULLONG_MAX = %s", n, show(a).c_str()), k); }
+	{ String a = A(l); a << -7 << 'c' << "d" << 0.5 << true; if (!is(a, l + "-7cd0.5true")) bad("shl", fmt("<%d chars> << -7 << 'c' << \"d\" << 0.5 << true = %s", n, show(a).c_str()), k); }
+	vf::add(W_SHL_FORMS, 7);
+	{ String a = A(l); a = n * 1000003 - 7; if (!is(a, fmt("%d", n * 1000003 - 7))) bad("assign_T", fmt("(<%d chars>) = int gives %s", n, show(a).c_str()), k); }
+	{ String a = A(l); a = 4000000000u; if (!is(a, "4000000000")) bad("assign_T", fmt("(<%d chars>) = 4000000000u gives %s", n, show(a).c_str()), k); }
+	{ String a = A(l); a = (Long)-1234567890123456789LL; if (!is(a, "-1234567890123456789")) bad("assign_T", fmt("(<%d chars>) = (Long)-1234567890123456789 gives %s", n, show(a).c_str()), k); }
+	{ String a = A(l); a = (ULong)18446744073709551615ULL; if (!is(a, "18446744073709551615")) bad("assign_T", fmt("(<%d chars>) = ULLONG_MAX gives %s", n, show(a).c_str()), k); }
+	vf::add(W_TMPL_ASSIGN, 4); vf::add(C_EVAL, 11);
+	// fix(k): the caller has put a terminator at k and tells the String so
+	if (n <= 64) { String a = A(l);
+	  for (int q = n; q >= 0; q--) { char save = a[q]; a[q] = '\0'; a.fix(q); if (!is(a, l.substr(0, q))) bad("fix_n", fmt("<%d chars>: s[%d] = 0; s.fix(%d) gives %s", n, q, q, show(a).c_str()), k); a[q] = save; a.fix(n); vf::add(W_FIX_N); vf::add(C_EVAL); }
+	  if (!is(a, l)) bad("fix_n", fmt("<%d chars> after fix(k) and back: %s", n, show(a).c_str()), k); }
+	asanChk("text constructors / operator<< / operator= / fix(n)", k);
+}
+
+// every operator+ form at the length pair (la, lb); placement 0: operands as constructed; 1: both operands in heap blocks with slack
+static void chk_concat(int la, int lb, int placement) {
+	std::string k = fmt("concat:%d:%d:%d", la, lb, placement); vf::cur(k); vf::add(C_DIST);
+	std::string ma = StrSys::lit(la), mb; for (int i = 0; i < lb; i++) mb += char('A' + i % 26);
+	String a = A(placement ? std::string(60, 'q') : ma), b = A(placement ? std::string(60, 'q') : mb);
+	if (placement) { a = ma.c_str(); b = mb.c_str(); }
+	if (b._size) vf::add(W_CONCAT_HEAP_RHS);
+	int t = la + lb; if (t == 15 || t == 16 || t == 19 || t == 20) vf::add(W_CONCAT_AT_BOUNDARY);
+	{ vfx::Flush f1(a), f2(b);
+	  String r = a + b; if (!is(r, ma + mb)) bad("concat", fmt("String<%d> + String<%d> = %s", la, lb, show(r).c_str()), k);
+	  String q = a + mb.c_str(); if (!is(q, ma + mb)) bad("concat", fmt("String<%d> + const char*<%d> = %s", la, lb, show(q).c_str()), k);
+	  String u = ma.c_str() + b; if (!is(u, ma + mb)) bad("concat", fmt("const char*<%d> + String<%d> = %s", la, lb, show(u).c_str()), k);
+	  String v = a + b + a; if (!is(v, ma + mb + ma)) bad("concat", fmt("String<%d> + String<%d> + String<%d> = %s", la, lb, la, show(v).c_str()), k);
+	  if (la == lb) { String w = a + a; if (!is(w, ma + ma)) bad("concat", fmt("s + s with %d chars = %s", la, show(w).c_str()), k); String x = a + *a; if (!is(x, ma + ma)) bad("concat", fmt("s + *s with %d chars = %s", la, show(x).c_str()), k); vf::add(W_CONCAT, 2); vf::add(C_EVAL, 2); }
+	}
+	if (!is(a, ma) || !is(b, mb)) bad("concat", fmt("operands of + changed (%d, %d)", la, lb), k);
+	vf::add(W_CONCAT, 4); vf::add(C_EVAL, 4);
+	asanChk("operator+", k);
+}
+
 static void run_case(const std::string& k) {
 	long a, b, c, d; unsigned long long u; char buf[64];
+	unsigned long long u2;
 	if (sscanf(k.c_str(), "substring:%ld:%ld", &a, &b) == 2) pure_substring((int)a, (int)b);
-	else if (sscanf(k.c_str(), "search:%ld:%llu:%ld", &a, &u, &b) == 3) pure_search(u, (int)a, (int)b);
+	else if (sscanf(k.c_str(), "search:%ld:%llu:%ld", &a, &u, &b) == 3) pure_search(u, (int)a, (int)b, 0);
+	else if (sscanf(k.c_str(), "searchE:%ld:%llu:%ld", &a, &u, &b) == 3) pure_search(u, (int)a, (int)b, 1);
+	else if (sscanf(k.c_str(), "split2:%ld:%llu:%ld", &a, &u, &b) == 3) pure_split2(u, (int)a, (int)b);
+	else if (sscanf(k.c_str(), "trim7:%ld:%llu:%ld", &a, &u, &b) == 3) pure_trim(u, (int)a, (int)b, 7);
+	else if (sscanf(k.c_str(), "double:%llx", &u2) == 1) { double x; memcpy(&x, &u2, 8); chk_double(x); }
+	else if (sscanf(k.c_str(), "float:%llx", &u2) == 1) { unsigned v = (unsigned)u2; float x; memcpy(&x, &v, 4); chk_float(x); }
+	else if (k.compare(0, 5, "misc:") == 0) chk_misc();
+	else if (sscanf(k.c_str(), "text:%ld", &a) == 1) chk_text((int)a);
+	else if (sscanf(k.c_str(), "concat:%ld:%ld:%ld", &a, &b, &c) == 3) chk_concat((int)a, (int)b, (int)c);
 	else if (sscanf(k.c_str(), "split:%ld:%llu:%ld", &a, &u, &b) == 3) pure_split(u, (int)a, (int)b);
 	else if (sscanf(k.c_str(), "replace:%ld:%llu:%ld", &a, &u, &b) == 3) pure_replace(u, (int)a, (int)b);
 	else if (sscanf(k.c_str(), "trim:%ld:%llu:%ld", &a, &u, &b) == 3) pure_trim(u, (int)a, (int)b);
@@ -284,6 +544,7 @@ static void run_case(const std::string& k) {
 	else if (sscanf(k.c_str(), "long:%63s", buf) == 1) chk_long(strtoll(buf, 0, 10));
 	else if (sscanf(k.c_str(), "ulong:%63s", buf) == 1) chk_ulong(strtoull(buf, 0, 10));
 	else if (sscanf(k.c_str(), "printf:%ld:%ld", &a, &b) == 2) chk_printf((int)a, (int)b);
+	else vf::violation("harness", "case string not understood", k);
 	(void)c; (void)d;
 }
 
@@ -294,6 +555,16 @@ int main(int argc, char** argv) {
 	W_INLINE2HEAP = vf::counter("w.inline_to_heap"); W_HEAP_DOUBLE = vf::counter("w.heap_growth_malloc_below_1KiB"); W_REALLOC = vf::counter("w.heap_growth_realloc_above_1KiB");
 	W_SELF_APPEND = vf::counter("w.self_append_ops"); W_SELF_ASSIGN = vf::counter("w.self_assign_ops"); W_INLINE_RESULT = vf::counter("w.results_inline"); W_HEAP_RESULT = vf::counter("w.results_heap");
 	W_F_RETRY = vf::counter("w.String_f_beyond_255_retry"); W_CTOR_RETRY = vf::counter("w.printf_ctor_retry");
+	W_CTORBLK_GROW = vf::counter("w.ctor_block_outgrown"); W_CTORBLK_FULL_APPCHAR = vf::counter("w.ctor_block_full_append_char"); W_CTORBLK_SELFAPP = vf::counter("w.ctor_block_self_append");
+	W_SELFAPP_GROW = vf::counter("w.self_append_with_growth"); W_SELFAPP_NOGROW = vf::counter("w.self_append_without_growth");
+	W_SELFAPP_REALLOC_MOVED = vf::counter("w.self_append_realloc_moved_block");
+	W_DOUBLE_HEAP = vf::counter("w.double_text_16_or_more"); W_DOUBLE_INLINE = vf::counter("w.double_text_below_16"); W_FLOAT = vf::counter("w.float_values"); W_BOOL = vf::counter("w.bool_values");
+	W_HIGHBYTE_TRIMCASES = vf::counter("w.trim_inputs_with_0x01_or_0xC3"); W_HIGHBYTE_EDGE = vf::counter("w.trim_inputs_with_0x01_or_0xC3_at_an_end");
+	W_SPLIT_REUSED_NONEMPTY = vf::counter("w.split_into_nonempty_array"); W_DIC_PAIRS = vf::counter("w.split_dic_pairs"); W_DIC_SKIPPED = vf::counter("w.split_dic_pieces_skipped"); W_DIC_OVERWRITE = vf::counter("w.split_dic_key_repeated");
+	W_SUBSTR_START_BEYOND = vf::counter("w.substr_start_beyond_end"); W_SUBSTR_NEG_START = vf::counter("w.substr_negative_start"); W_SUBSTR_COUNT_CLAMPED = vf::counter("w.substr_count_clamped");
+	W_CHAR_OVERLOADS = vf::counter("w.char_overload_cases"); W_EMPTY_HEAP_SEARCH = vf::counter("w.search_on_empty_heap_string"); W_SIGNED_ORDER = vf::counter("w.compare_pairs_where_signed_order_differs");
+	W_CONCAT = vf::counter("w.operator_plus_calls"); W_CONCAT_HEAP_RHS = vf::counter("w.operator_plus_heap_rhs"); W_CONCAT_AT_BOUNDARY = vf::counter("w.operator_plus_result_15_16_19_20");
+	W_TEXT_CTORS = vf::counter("w.text_ctor_calls"); W_REPEAT_NEG = vf::counter("w.repeat_negative_count"); W_TMPL_ASSIGN = vf::counter("w.template_assign_calls"); W_SHL_FORMS = vf::counter("w.operator_shl_calls"); W_FIX_N = vf::counter("w.fix_n_calls");
 	bool T = vf::opt.thorough();
 	StrSys sys;
 	if (vf::opt.replay) {
@@ -301,20 +572,42 @@ int main(int argc, char** argv) {
 		vf::parallel(1, [&](uint64_t) { if (k.compare(0, 7, "string:") == 0) vf::Bfs<StrSys>(sys, "string").replay(k); else run_case(k); });
 		return vf::finish();
 	}
-	{ // (1)
+	{ // (1) all histories of up to 5 ops
 		vf::Bfs<StrSys> b(sys, "string");
-		vf::BfsResult r = b.run(T ? 6 : 5, 0);
+		vf::BfsResult r = b.run(5, 0);
 		vf::add(cS, r.states); vf::add(cT, r.transitions); vf::add(cTr, r.traces);
 		std::string pd; for (size_t i = 0; i < r.per_depth.size(); i++) pd += fmt(i ? ",%llu" : "%llu", (unsigned long long)r.per_depth[i]);
 		vf::setinfo("string_histories", fmt("{\"depth_completed\": %d, \"states\": %llu, \"transitions\": %llu, \"new_states_per_depth\": [%s], \"op_alphabet\": %d}", r.depth_done, (unsigned long long)r.states, (unsigned long long)r.transitions, pd.c_str(), sys.nops()));
+		// thorough: all histories of up to 6 ops, as one depth-5 search from every distinct state that is one op away from the start (a first op that
+		// leaves the start state unchanged is covered by the search above). One search over depth 6 would need > 4 GB for the merge of its last level.
+		// Case strings are "string:<first op>:<rest>", which replays as the plain history first.rest.
+		if (T && vf::nviolations() == 0) {
+			std::vector<int> firsts; std::set<std::string> seen1;
+			sys.reset(); seen1.insert(sys.canon());
+			for (int op = 0; op < sys.nops(); op++) { sys.reset(); if (!sys.enabled(op)) continue; std::string e; if (sys.apply(op, e) && seen1.insert(sys.canon()).second) firsts.push_back(op); }
+			sys.reset(); vf::asan_clear();
+			uint64_t st = 0, tr = 0; int done = 0; std::string per;
+			for (size_t f = 0; f < firsts.size(); f++) {
+				sys.first = firsts[f];
+				vf::Bfs<StrSys> bd(sys, fmt("string:%d", firsts[f]));
+				vf::BfsResult rd = bd.run(5, 0);
+				vf::add(cS, rd.states); vf::add(cT, rd.transitions); vf::add(cTr, rd.traces);
+				st += rd.states; tr += rd.transitions; if (rd.depth_done == 5 || rd.fixed_point) done++;
+				per += fmt(f ? ",[%d,%llu]" : "[%d,%llu]", firsts[f], (unsigned long long)rd.transitions);
+			}
+			sys.first = -1;
+			if (done != (int)firsts.size()) vf::cap_hit("string: a depth-6 partition did not complete");
+			vf::setinfo("string_histories_depth6", fmt("{\"searches_of_depth_5_from_first_level_states\": %d, \"completed\": %d, \"states_summed_over_searches\": %llu, \"transitions\": %llu, \"first_op_and_transitions\": [%s]}", (int)firsts.size(), done, (unsigned long long)st, (unsigned long long)tr, per.c_str()));
+		} else if (T) vf::cap_hit("string: depth-6 histories not searched because shallower ones already violate the property");
 	}
 	// (2)
 	vf::parallel(2 * 41, [&](uint64_t i) { pure_substring((int)(i % 41), i / 41 ? 20 : 0); });
+	for (int alpha = 0; alpha < 2; alpha++) for (int pi = 0; pi < 3; pi++) { int pad = pi == 0 ? 0 : pi == 1 ? 20 : -1; for (int len = 0; len <= (T ? 7 : 5); len++) vf::parallel(ipow(2, len), [&](uint64_t i) { pure_search(i, len, pad, alpha); }, 8); }
 	for (int pad = 0; pad <= 20; pad += 20) {
-		for (int len = 0; len <= (T ? 7 : 5); len++) vf::parallel(ipow(2, len), [&](uint64_t i) { pure_search(i, len, pad); }, 8);
 		for (int len = 0; len <= (T ? 8 : 7); len++) vf::parallel(ipow(3, len), [&](uint64_t i) { pure_split(i, len, pad); }, 32);
 		for (int len = 0; len <= (T ? 9 : 7); len++) vf::parallel(ipow(2, len), [&](uint64_t i) { pure_replace(i, len, pad); }, 8);
-		for (int len = 0; len <= (T ? 7 : 6); len++) vf::parallel(ipow(5, len), [&](uint64_t i) { pure_trim(i, len, pad); }, 64);
+		for (int len = 0; len <= (T ? 7 : 6); len++) vf::parallel(ipow(7, len), [&](uint64_t i) { pure_trim(i, len, pad, 7); }, 64);
+		for (int len = 0; len <= (T ? 7 : 6); len++) vf::parallel(ipow(4, len), [&](uint64_t i) { pure_split2(i, len, pad); }, 64);
 	}
 	vf::add(C_DIST, vf::get(C_EVAL)); // every pure-function case above is a distinct (input, arguments) tuple
 	// (3) integers
@@ -337,6 +630,18 @@ int main(int argc, char** argv) {
 	});
 	// (4) printf-style constructors: every argument length 0..300
 	vf::parallel(301, [&](uint64_t la) { int lbs[] = { 0, 1, 14, 15, 16, 99, 100, 253, 254, 255, 256, 300 }; for (int j = 0; j < 12; j++) chk_printf((int)la, lbs[j]); });
+	// (5) float / double / bool text, remaining text constructors and operator forms, operator+ over boundary length pairs
+	{
+		std::vector<double> ds; gen_doubles(ds, T); std::vector<float> fs; gen_floats(fs, T);
+		vf::parallel(ds.size(), [&](uint64_t i) { chk_double(ds[i]); }, 16);
+		vf::parallel(fs.size(), [&](uint64_t i) { chk_float(fs[i]); }, 16);
+		vf::parallel(1, [&](uint64_t) { chk_misc(); });
+		vf::parallel((T ? 300 : 48) + 4, [&](uint64_t i) { chk_text((int)i - 3); }, 4);
+		static const int cl[] = { 0, 1, 7, 8, 14, 15, 16, 19, 20, 23, 24, 40 };
+		if (T) vf::parallel(2 * 49 * 49, [&](uint64_t i) { chk_concat((int)(i % 49), (int)(i / 49 % 49), (int)(i / 2401)); }, 64);
+		else vf::parallel(2 * 144, [&](uint64_t i) { chk_concat(cl[i % 12], cl[i / 12 % 12], (int)(i / 144)); }, 16);
+		vf::setinfo("number_text", fmt("{\"doubles\": %d, \"floats\": %d}", (int)ds.size(), (int)fs.size()));
+	}
 	vf::sample("string history: s = \"<15 chars>\" ; s += s ; s = *s + 2 ; s.append(*s + 1, n - 2) ; s.resize(2n+3)");
 	vf::sample("'ab,,a'.split(',,').join(',,'); 'aab'.replace('aa','ab'); String((Long)LLONG_MIN); String::f(\"%s-%s\", <254 chars>, <16 chars>)");
 	return vf::finish();
